@@ -209,6 +209,31 @@ def check(chk):
     exp = [b for b in cfg.nodes if b.kind == "branch" and src(b.ast).replace(" ", "") == "settings['expire']<current_time"]
     ok = bool(exp) and all(not any(n.id in cfg.reachable([b.id], avoid=[h.id for h in cfg.nodes if h.kind == "loop"]) for n, c in sets) for b in exp if b.value is True)
     chk.ob("TABLE-6", "a variable is skipped exactly when its expiry time lies in the past", ok, l_.where(), construct=l_.ident, text="expiry test")
+    # sufficiency: every stored record that has a value and is not expired is restored -- nothing else skips a record.  The two skips
+    # are written as `continue` under an or- / and-test; the restore's selection is what remains: record well-formed (both or-atoms
+    # false) and no further dominating condition.
+    from sa.helpers import inloop_guards
+    from sa.cfg import canon_fact
+    lh = [h for h in cfg.nodes if h.kind == "loop"]
+    for n, c in sets:
+        if not lh:
+            break
+        got = inloop_guards(cfg, n.id, lh[0].id)
+        want = {canon_fact("isinstance(settings, dict)", True), canon_fact("'value' not in settings", False)}
+        chk.ob("TABLE-6", "every well-formed, unexpired record is restored (no further condition)", got == want, l_.where(c), detail="selected by %s" % sorted(got),
+               construct=l_.ident, text="restore selection")
+        conts = [x for x in cfg.nodes if x.kind == "stmt" and isinstance(x.ast, ast.Continue)]
+        ifs = [y for y in ast.walk(l_.node) if isinstance(y, ast.If) and any(isinstance(z, ast.Continue) for z in y.body)]
+        def shape(t):
+            if isinstance(t, ast.BoolOp):
+                return (type(t.op).__name__, frozenset(canon_fact(src(o).replace('"', "'"), True)[0] for o in t.values))
+            return ("atom", frozenset([canon_fact(src(t).replace('"', "'"), True)[0]]))
+        tests = {shape(y.test) for y in ifs}
+        want_t = {("Or", frozenset(canon_fact(x, True)[0] for x in ("not isinstance(settings, dict)", "'value' not in settings"))),
+                  ("And", frozenset(canon_fact(x, True)[0] for x in ("'expire' in settings", "settings['expire']", "settings['expire'] < current_time")))}
+        ok = len(conts) == 2 and tests == want_t
+        chk.ob("TABLE-6", "a record is skipped only when it is malformed or its expiry time lies in the past (the two skip tests, nothing added)", ok, l_.where(),
+               detail=str(tests), construct=l_.ident, text="record skip tests")
     skip = [b for b in cfg.nodes if b.kind == "branch" and "'value' not in settings" in src(b.ast)]
     chk.ob("TABLE-6", "malformed records are skipped, not loaded", bool(skip), l_.where(), construct=l_.ident, text="malformed skip")
 
@@ -247,6 +272,7 @@ def battery():
         M("twin: log level", DM, "                self.info_log(\"ERROR writing file %s: %s\", self.filename, e)", "                self.warning_log(\"ERROR writing file %s: %s\", self.filename, e)", None),
         M("writer loop polarity", DM, "        while not self.machine.thread_stopper.is_set():", "        while self.machine.thread_stopper.is_set():", "FLOW-6"),
         M("writer skips dirty rounds", DM, "            if not self._dirty.wait(1):\n                continue", "            if self._dirty.wait(1):\n                continue", "FLOW-6"),
+        M("unexpired variables are dropped on load when they expire at all", MV, "            if ('expire' in settings and settings['expire'] and\n                    settings['expire'] < current_time):", "            if ('expire' in settings and settings['expire']):", "TABLE-6"),
     ]
 
 
